@@ -40,13 +40,16 @@ def check_levels(ctx: Ctx):
         if isinstance(s, ast.Assign) and isinstance(s.targets[0], ast.Name) and isinstance(s.value, ast.Subscript) and U(s.value.value) == "phase_field.data":
             region = s.targets[0].id
 
-    def source_ok(src, at):
+    def source_ok(src, at, extra=()):
         """the reduced values are those of the fitted region; only when that region is empty (a candidate that covers no
         support point) may another part of the same image stand in.  Returns (ok, guarded against the empty region)"""
         ex = fv.expand(src, at, stop=(region, "phase_field"))
         cases = ifexp_cases(ex)
         ok, guarded = True, len(cases) > 1
         for conds, val in cases:
+            conds = list(conds) + list(extra)
+            if extra and any(t.replace(" ", "").startswith((f"{region}.size", f"len({region})", f"0<{region}.size")) for t, _o in extra):
+                guarded = True
             txt = U(val)
             nonempty = any((t.replace(" ", "") in (f"{region}.size>0", f"0<{region}.size", f"{region}.size!=0", f"{region}.size", f"len({region})>0", f"len({region})!=0") and o)
                            or (t.replace(" ", "") in (f"{region}.size==0", f"len({region})==0") and not o) for t, o in conds)
@@ -59,10 +62,63 @@ def check_levels(ctx: Ctx):
             ok = False
         return ok, guarded
 
+    def by_paths(nm, red):
+        """path-sensitive reading: the value of `nm` where both levels are first used together, per path — (ok, as_float, guarded) or None"""
+        from ..astutil import value_cases, truth_of
+
+        use = None
+        for s_ in fi.node.body:
+            loads = {n_.id for n_ in ast.walk(s_) if isinstance(n_, ast.Name) and isinstance(n_.ctx, ast.Load)}
+            if {"vmin", "vmax"} <= loads and isinstance(s_, ast.Assign):
+                use = s_
+                break
+        if use is None or region is None:
+            return None
+        try:
+            cases = value_cases(fv, use, ast.Name(id=nm, ctx=ast.Load()), stop=(region, "phase_field"))
+        except Exception:  # noqa: BLE001
+            return None
+        if not cases:
+            return None
+        ok_, fl_, gd_, auto = True, True, True, 0
+        nonempty_txt = (f"{region}.size > 0", f"0 < {region}.size", f"{region}.size != 0", f"{region}.size", f"len({region}) > 0")
+        empty_txt = (f"{region}.size == 0", f"len({region}) == 0")
+        for dec, val in cases:
+            v = val
+            if isinstance(v, ast.Name) and v.id == nm:
+                # the caller's value: only on paths where it was given
+                if truth_of(dec, f"{nm} is None") is True:
+                    ok_ = False
+                continue
+            auto += 1
+            if truth_of(dec, f"{nm} is None") is not True:
+                ok_ = False
+            as_float = False
+            while isinstance(v, ast.Call) and U(v.func) in ("float", "np.float64", "np.double") and len(v.args) == 1 and not v.keywords:
+                v, as_float = v.args[0], True
+            fl_ = fl_ and as_float
+            if not (isinstance(v, ast.Call) and U(v.func) in (f"np.{red}", f"np.a{red}", f"numpy.{red}") and len(v.args) == 1 and not v.keywords):
+                ok_ = False
+                continue
+            src = U(v.args[0])
+            ne = [truth_of(dec, t_) for t_ in nonempty_txt]
+            em = [truth_of(dec, t_) for t_ in empty_txt]
+            is_nonempty = any(x is True for x in ne) or any(x is False for x in em)
+            is_empty = any(x is False for x in ne) or any(x is True for x in em)
+            if src == region and not is_empty:
+                gd_ = gd_ and is_nonempty
+            elif src == "phase_field.data" and is_empty:
+                pass
+            else:
+                ok_ = False
+        return (ok_ and auto > 0, fl_, gd_)
+
     guarded_all = True
     floats = {}
+    alt_used = {}
     for nm, red in want.items():
         ok, where = False, fi
+        oks_all = []
         for s in fv.statements():
             if isinstance(s, ast.Assign) and isinstance(s.targets[0], ast.Name) and s.targets[0].id == nm:
                 where = s
@@ -80,9 +136,25 @@ def check_levels(ctx: Ctx):
                 elif isinstance(v, ast.Call) and isinstance(v.func, ast.Attribute) and v.func.attr == red and not v.args and not v.keywords:
                     src = v.func.value
                 if src is not None and region is not None:
-                    oks, guarded = source_ok(src, s)
+                    from ..astutil import canon_tests as _ct
+
+                    extra = []
+                    for t_, p_ in g:
+                        for txt_, pol_ in _ct(fv.expand(t_, s, stop=(region, "phase_field")), p_):
+                            extra.append((txt_, pol_))
+                    oks, guarded = source_ok(src, s, extra)
                     guarded_all = guarded_all and guarded
-                    ok = oks and okg
+                    oks_all.append(oks and okg)
+                    ok = all(oks_all)
+                else:
+                    oks_all.append(False)
+                    ok = False
+        if not ok:
+            alt = by_paths(nm, red)
+            if alt is not None and alt[0]:
+                ok = True
+                floats[nm] = alt[1]
+                alt_used[nm] = alt
         ctx.decide(ok, "LEVELS", f"{site}:{nm}", (fi, where), f"automatic {nm} = {red} over the fitted region, only when `{nm} is None`",
                    f"automatic level `{nm}` is not the {red} over the fitted region guarded by `{nm} is None`")
     # the automatic levels are numpy scalars of the image's dtype: the range vmax − vmin and the bounds vmin − vrng are computed
@@ -91,6 +163,8 @@ def check_levels(ctx: Ctx):
                f"automatic level(s) {sorted(k for k, v_ in floats.items() if not v_)} keep the image's dtype: for a boolean image `vmax - vmin` raises TypeError, for an unsigned integer image the bound "
                "`vmin - vrng` wraps around and least_squares rejects the start vector — locate_droplets(refine=True, refine_args={'vmin': None, 'vmax': None}) aborts on such images")
     # a candidate smaller than a cell covers no support point: the region is empty and a bare min/max over it raises
+    if alt_used and len(alt_used) == len(want):
+        guarded_all = all(a_[2] for a_ in alt_used.values())
     ctx.decide(guarded_all, "LEVELS", site + ":empty-region", fi, "the automatic levels are defined for an empty fitted region as well (taken from the whole image then)",
                "the automatic levels are np.min/np.max over the fitted region only: for a candidate that covers no support point (radius below half a cell between cell centres) the region is empty and "
                "`refine_droplet(field, DiffuseDroplet([5.3, 5.3], 0.2), vmin=None, vmax=None)` raises ValueError instead of returning a droplet")
@@ -113,7 +187,7 @@ def check_levels(ctx: Ctx):
             okreg = okreg and it is not None and U(it).replace(" ", "") in ("1+int(2*droplet.interface_width)", "int(2*droplet.interface_width)+1")
         # and the automatic levels are taken from exactly these values
         lv = [s for s in fv.statements() if isinstance(s, ast.Assign) and U(s.targets[0]) in ("vmin", "vmax") and U(dm.targets[0]) in U(fv.expand(s.value, s, stop=(U(dm.targets[0]), "phase_field")))]
-        okreg = okreg and len(lv) >= 2
+        okreg = okreg and (len(lv) >= 2 or len(alt_used) == len(want))
     ctx.decide(okreg, "LEVELS", site + ":region", (fi, where), "fit region = boolean image of the candidate dilated by 1 + int(2·width) cells; image values taken there",
                "the fit region is not the dilated boolean image of the candidate (1 + int(2·width) iterations) applied to phase_field.data")
     # vrng = vmax - vmin
@@ -226,6 +300,19 @@ def check(ctx: Ctx):
     from ..rules import render, support
 
     support.check_fixed_levels(ctx)
+    # the residual renders the candidate through polar_coordinates (perturbed classes): no division by a zero distance
+    support.compose(ctx, render.check_polar, rules=("DIV0",), keep=("DIV0",))
+    # refine_droplets hands the caller's options (levels, tolerances) to refine_droplet in both of its arms
+    from . import c15 as _c15
+
+    sub_s = Ctx(ctx.model, ctx.prop, ctx.tier)
+    for fi_, ifn_ in _c15.discover_splits(ctx.model):
+        if fi_.qualname == "droplets.image_analysis.refine_droplets":
+            _c15.check_split(sub_s, fi_, ifn_)
+    ctx.findings.extend(f for f in sub_s.findings if f.rule == "PARMAP")
+    ctx.functions |= sub_s.functions
+    ctx.expect("PARMAP", 6)
+    ctx.expect("DIV0", 1)
     for cname in ("DiffuseDroplet", "PerturbedDropletBase"):
         support.compose(ctx, render.check_renderer, cname, rules=("SHARP", "WIDTH", "CAST"), keep=("SHARP", "WIDTH", "CAST"))
     ctx.expect("SHARP", 2)
